@@ -55,6 +55,8 @@ def run_all(ctx, props, faults=1):
     k = 6 if thorough else 1
     plan = [("A", "random", 40 * k, {}), ("B", "random", 12 * k, {}), ("C", "random", 15 * k, {}),
             ("D", "natural", 12 * k, {}), ("E", "natural", 8 * k, {}), ("A", "random", 12 * k, {"gd": 1}), ("U", "random", 20 * k, {"gd": 1, "users": 3}),
+            # several processes of one user: the same shard cache directory reached through separate manager instances
+            ("A", "random", 15 * k, {"users": 1002}),
             # sizes exactly at and one past the chunk-count limit, remainders adding up to the limit / one more
             ("A", "limits", 1, {}), ("G", "limits", 1, {}), ("C", "limits", 1, {}),
             # every single store call failing in turn (nothing stored / stored then failed / failing at finalize)
